@@ -8,10 +8,17 @@ use core::future::Future;
 use core::pin::Pin;
 use std::collections::{HashMap, hash_map};
 
+#[cfg(not(feature = "verif-hooks"))]
 use parking_lot::{
     RwLock, RwLockReadGuard, RwLockUpgradableReadGuard, RwLockWriteGuard,
 };
+#[cfg(not(feature = "verif-hooks"))]
 use tokio::sync::Mutex;
+#[cfg(feature = "verif-hooks")]
+use {
+    crate::zonetree::verif_sync::{Mutex, RwLock},
+    parking_lot::{RwLockReadGuard, RwLockWriteGuard},
+};
 
 use crate::base::iana::{Class, Rtype};
 use crate::base::name::{Label, OwnedLabel, ToName};
@@ -379,7 +386,10 @@ impl NodeChildren {
         if let Some(node) = lock.get(label) {
             return op(node, false);
         }
+        #[cfg(not(feature = "verif-hooks"))]
         let mut lock = RwLockUpgradableReadGuard::upgrade(lock);
+        #[cfg(feature = "verif-hooks")]
+        let mut lock = crate::zonetree::verif_sync::upgrade(lock);
         lock.insert(label.into(), Default::default());
         let lock = RwLockWriteGuard::downgrade(lock);
         op(lock.get(label).unwrap(), true)
